@@ -12,6 +12,13 @@ def size_terms(p):
     """comparison atoms of the path between the record size argument and computed sizes: [(op, size term, truth)]"""
     out = []
     for t, v in p.cons:
+        if t == ('param', 2):
+            if isinstance(v, int):
+                out.append((('int', v), True))
+            else:
+                for x in v[1]:
+                    out.append((('int', x), False))
+            continue
         if t[0] == 'bin' and t[1] in ('Eq', 'Ne') and (t[2] == ('param', 2) or t[3] == ('param', 2)):
             other = t[3] if t[2] == ('param', 2) else t[2]
             truth = (v != 0) if isinstance(v, int) else True
